@@ -24,8 +24,6 @@ package isaacblock
 //@   trusted
 //@   modifies *
 
-//@ lemma aligned_mod (C15): forall(a, x, m, trigger(x % m, a % m), m > 0 && a % m == 0 && a <= x && x < a + m ==> x % m == x - a)
-//@ lemma aligned_next (C15): forall(a, m, trigger((a + m) % m), m > 0 && a % m == 0 ==> (a + m) % m == 0)
 
 //@ func ImportBlocks
 //@   prop C15
